@@ -408,3 +408,20 @@ Proof.
   - replace ((10 <=? length bs)%nat) with (10 - 0 <=? N.of_nat (length bs)) by lia.
     reflexivity.
 Qed.
+
+(* ---- corollaries used by C01: the readers never panic (the `64 <=? shift` branch of shl64 is dead) ---- *)
+Lemma read_uleb128_total dbg bs : read_uleb128 dbg bs <> Panic /\ read_uleb128 dbg bs <> OutOfFuel.
+Proof.
+  rewrite read_uleb128_exact. unfold uleb_spec.
+  destruct (split_leb bs) as [[e r]|].
+  - destruct ((length e <=? 10)%nat && (uval e <? 2 ^ 64)); split; discriminate.
+  - destruct (10 <=? length bs)%nat; split; discriminate.
+Qed.
+
+Lemma read_sleb128_total dbg bs : read_sleb128 dbg bs <> Panic /\ read_sleb128 dbg bs <> OutOfFuel.
+Proof.
+  rewrite read_sleb128_exact. unfold sleb_spec.
+  destruct (split_leb bs) as [[e r]|].
+  - destruct ((length e <=? 10)%nat && in_i64 (sval e)); split; discriminate.
+  - destruct (10 <=? length bs)%nat; split; discriminate.
+Qed.
